@@ -4,6 +4,10 @@ mod fixtures;
 mod refmodel;
 mod scen_blind;
 mod scen_codec;
+mod scen_conform;
+mod scen_domain;
+mod scen_update;
+mod scen_fresh;
 mod scen_proof;
 mod scen_robust;
 mod scen_sig;
@@ -118,6 +122,56 @@ static C06: Check = Check {
     exhaustive_after: None,
 };
 
+static C07: Check = Check {
+    property: "C07",
+    level: "exploration",
+    rule: "one run = one credential (plain and blind) and K in 2..6 holder nodes, each on its own OS thread with its own entropy stream, each performing 2..6 generations (proof_gen, blind_proof_gen, commit, KeyPair::random + BlindFactor::random) on the SAME inputs, the first generation of every holder being the same operation, interleaved by the scheduler with tick preemption, holder crash-restart (fresh thread_rng) and EINTR / short reads in between; the wire monitor holds every witness and, over the whole history of the run, requires: recomputed blindings e~, m~_j, s~, cm~_i non-zero, >= 2^160 and pairwise distinct; responses, Abar, Bbar, D, commitments, blind factors, random keys never repeated; no 32/48-octet window of a proof or commitment equal to a hidden scalar, e, A, the blind factor; a case = one transcript",
+    quick_runs: 300,
+    thorough_runs: 1500,
+    run: scen_fresh::run_c07,
+    assumptions: &["'no pair of transcripts allows extraction' is decided in the form the property's quantifier gives (distinct non-zero recomputed blindings), not as a proof of zero knowledge", "a deterministic but well-spread generator that ignores OS entropy (e.g. a hashed global counter) would not be caught by distinctness alone"],
+    real: REAL,
+    simulated: SIMULATED,
+    exhaustive_after: None,
+};
+
+static C10: Check = Check {
+    property: "C10",
+    level: "exploration",
+    rule: "one run = 12..31 deterministic operations (KeyGen/SkToPk across the ikm, key_info and DST size limits; create_generators for counts 0..=64, 255..257 (1000+ thorough) and plain / blind / BLIND_ / empty / arbitrary api_ids; messages_to_scalars; hash_to_scalar across the DST limit; Sign with L up to 257 and headers across 255/256; BlindSign on a fixed request and without one; accept/reject decisions of verify, proof_verify, blind_sign(request), verify_blind_sign, blind_proof_verify on honest and singly mutated artefacts) spread over 1, 2-4, 5-8 or 16 nodes and interleaved by the scheduler with tick preemption; each result is compared with the executable spec model (octets and Ok/Err) and, for a sample, with the same operation alone on a fresh thread; the model must first reproduce all 110 fixture vectors; a case = one operation",
+    quick_runs: 160,
+    thorough_runs: 1500,
+    run: scen_conform::run_c10,
+    assumptions: &["trusted base: the model's reading of the drafts (DESIGN.md Appendix B), pinned by every fixture incl. trace values", "decision comparison uses canonical (ascending) index lists only", "arbitrary api_ids are limited to 200 octets (longer DSTs are outside the drafts)", "proof generation is randomised and is covered by C03/C04, not by octet comparison"],
+    real: REAL,
+    simulated: SIMULATED,
+    exhaustive_after: None,
+};
+static C11: Check = Check {
+    property: "C11",
+    level: "fault_enumeration",
+    rule: "one run = one honest session producing the five artefact kinds (signature, proof, commitment-with-proof, blind signature, blind proof) under (suite s, interface i); each is delivered to all endpoints (s', i') -- 3 foreign ones must reject, its own is the control -- complete matrix per run, run parity selects s; plus 6..13 Generators::create calls (counts 0..280, api_ids plain / blind / BLIND_ / none, both suites) spread over two nodes in a per-run order with tick preemption inside create_generators, checked for count, identity, P1, duplicates, prefix consistency with every earlier set of the same api_id and disjointness from every set of another api_id; a case = one delivery or one generator set",
+    quick_runs: 120,
+    thorough_runs: 1200,
+    run: scen_domain::run_c11,
+    assumptions: &["foreign endpoints try every plausible way of feeding the artefact (with and without committed messages, every L)"],
+    real: REAL,
+    simulated: SIMULATED,
+    exhaustive_after: Some(2),
+};
+static C12: Check = Check {
+    property: "C12",
+    level: "exploration",
+    rule: "one run = one credential (L in 1..12; L = 1..6 in rotation on every fourth run with positions visited exhaustively) and a holder-intended history of up to 10 (thorough 32) single-message updates sent as UpdateRequest(i, old, new) frames over a channel that reorders, duplicates, drops and corrupts (index, old value) them; the Issuer applies them in arrival order; after each applied update the sequential model decides: correct old value => the reply verifies for the intended vector, keeps e, and its A equals B(vector)/(sk+e) computed by the spec model; index >= L => error; wrong old value (alteration, reorder, double application) => the reply must not verify for the intended vector; finally every epoch's signature is replayed against every other epoch's vector; a case = one update or one replay",
+    quick_runs: 300,
+    thorough_runs: 1500,
+    run: scen_update::run_c12,
+    assumptions: &["n passed to update_signature is the true message count (trusted)"],
+    real: REAL,
+    simulated: SIMULATED,
+    exhaustive_after: None,
+};
+
 fn node_init() {
     zkryptium::verif_hooks::install(Some(sim::on_tick));
 }
@@ -134,7 +188,7 @@ fn main() {
             Err(e) => { eprintln!("refmodel != fixtures: {e} (harness error)"); std::process::exit(2) }
         }
     }
-    let checks: Vec<&Check> = vec![&C01, &C02, &C03, &C04, &C05, &C06, &C08, &C09];
+    let checks: Vec<&Check> = vec![&C01, &C02, &C03, &C04, &C05, &C06, &C07, &C08, &C09, &C10, &C11, &C12];
     if let Err(e) = fixtures::check_all() {
         eprintln!("refmodel != fixtures: {e} (harness error)");
         std::process::exit(2);
